@@ -123,5 +123,234 @@ theorem table_face_consistent (a : Nat) (ha : a < 3) (b0 b1 b2 b3 b4 b5 b6 b7 c0
   rw [h3] at h2
   exact (h2.map (shiftE (unit a))).symm
 
+
+/-! ## 2. Gluing: the surface of an arbitrary box of cells is closed (balanced) -/
+
+/-- every directed edge occurs exactly as often as its reverse -/
+def Balanced {V : Type} [DecidableEq V] (L : List (V × V)) : Prop := ∀ u v, L.count (u, v) = L.count (v, u)
+
+theorem balancedB_sound_aux {V : Type} [DecidableEq V] (L : List (V × V)) (h : balancedB L = true) : Balanced L := by
+  intro u v
+  unfold balancedB at h
+  rw [List.all_eq_true] at h
+  by_cases h1 : (u, v) ∈ L
+  · simpa using h _ h1
+  · by_cases h2 : (v, u) ∈ L
+    · have := h _ h2; simp at this; exact this.symm
+    · rw [List.count_eq_zero_of_not_mem h1, List.count_eq_zero_of_not_mem h2]
+
+theorem swapE_injective_aux {V : Type} : Function.Injective (swapE : V × V → V × V) := by
+  intro a b h; cases a; cases b; simp [swapE] at h; simp [h.1, h.2]
+
+theorem count_map_swap_aux {V : Type} [DecidableEq V] (L : List (V × V)) (u v : V) :
+    (L.map swapE).count (u, v) = L.count (v, u) := by
+  have : (u, v) = swapE (v, u) := rfl
+  rw [this, List.count_map_of_injective L swapE swapE_injective_aux]
+
+/-- balance survives any relabelling of the vertices (injective or not) -/
+theorem Balanced.map_aux {V W : Type} [DecidableEq V] [DecidableEq W] {L : List (V × V)} (h : Balanced L) (f : V → W) :
+    Balanced (L.map fun e => (f e.1, f e.2)) := by
+  have hp : L.Perm (L.map swapE) := by
+    rw [List.perm_iff_count]; intro a; cases a with | mk a b => rw [count_map_swap_aux]; exact h a b
+  have hp2 := hp.map (fun e : V × V => (f e.1, f e.2))
+  intro u v
+  rw [hp2.count_eq, List.map_map]
+  have : ((fun e : V × V => (f e.1, f e.2)) ∘ swapE) = (swapE ∘ fun e : V × V => (f e.1, f e.2)) := by
+    funext e; rfl
+  rw [this, ← List.map_map, count_map_swap_aux]
+
+/-- net flow of a list of directed edges through the pair `(u, v)` -/
+def fl {V : Type} [DecidableEq V] (u v : V) (L : List (V × V)) : ℤ := (L.count (u, v) : ℤ) - (L.count (v, u) : ℤ)
+
+section flgen
+variable {V : Type} [DecidableEq V] (u v : V)
+theorem fl_nil_aux : fl u v [] = 0 := by simp [fl]
+theorem fl_append_aux (L M : List (V × V)) : fl u v (L ++ M) = fl u v L + fl u v M := by
+  simp [fl, List.count_append]; ring
+theorem fl_swap_aux (L : List (V × V)) : fl u v (L.map swapE) = - fl u v L := by
+  unfold fl; rw [count_map_swap_aux, count_map_swap_aux]; ring
+theorem fl_balanced_aux {L : List (V × V)} (h : Balanced L) : fl u v L = 0 := by
+  unfold fl; rw [h u v]; ring
+theorem balanced_of_fl_aux {L : List (V × V)} (h : ∀ u v, fl u v L = 0) : Balanced L := by
+  intro u v; have := h u v; unfold fl at this; omega
+end flgen
+
+section glue
+variable (s : Pt → Bool) (u v : LEdge)
+
+/-- the four sign bits of the lattice face perpendicular to `a` with lower corner `q` -/
+def latticeFaceBits (q : Pt) (a : Nat) : List Bool := planePts.map fun uv => s (padd q (embed a 0 uv))
+
+/-- flow of the canonical segments of that lattice face -/
+def G (a : Nat) (q : Pt) : ℤ := fl u v ((canon a (latticeFaceBits s q a)).map (shiftE q))
+
+theorem faceBits_low_aux (p : Pt) (a : Nat) (ha : a < 3) :
+    faceBits (cellBits s p) a 0 = latticeFaceBits s p a := by
+  interval_cases a <;> rfl
+
+theorem padd_assoc_aux (p q r : Pt) : padd (padd p q) r = padd p (padd q r) := by
+  simp [padd, add_assoc]
+
+theorem faceBits_high_aux (p : Pt) (a : Nat) (ha : a < 3) :
+    faceBits (cellBits s p) a 1 = latticeFaceBits s (padd p (unit a)) a := by
+  interval_cases a <;>
+    simp only [latticeFaceBits, planePts, List.map, padd_assoc_aux] <;> rfl
+
+theorem shiftE_shiftE_aux (p q : Pt) (L : List DEdge) : (L.map (shiftE q)).map (shiftE p) = L.map (shiftE (padd p q)) := by
+  rw [List.map_map]; congr 1; funext e
+  simp [shiftE, shiftL, padd_assoc_aux]
+
+theorem shiftE_swap_aux (p : Pt) (L : List DEdge) : (L.map swapE).map (shiftE p) = (L.map (shiftE p)).map swapE := by
+  rw [List.map_map, List.map_map]; congr 1
+
+/-- discrete divergence form of one cell: its net flow is the sum over the three axes of
+    (canonical flow of its high face) − (canonical flow of its low face) -/
+theorem cell_flow_aux (p : Pt) :
+    fl u v (cellEdges s p) =
+      (G s u v 0 (padd p (unit 0)) - G s u v 0 p) + (G s u v 1 (padd p (unit 1)) - G s u v 1 p)
+        + (G s u v 2 (padd p (unit 2)) - G s u v 2 p) := by
+  have hb := balancedB_sound_aux _ (table_cell_flow (s (padd p (cornerOff 0))) (s (padd p (cornerOff 1)))
+    (s (padd p (cornerOff 2))) (s (padd p (cornerOff 3))) (s (padd p (cornerOff 4))) (s (padd p (cornerOff 5)))
+    (s (padd p (cornerOff 6))) (s (padd p (cornerOff 7))))
+  have hm := fl_balanced_aux u v (hb.map_aux (shiftL p))
+  change fl u v ((flowList (cellBits s p)).map (shiftE p)) = 0 at hm
+  unfold flowList at hm
+  simp only [List.map_append, fl_append_aux, shiftE_swap_aux, fl_swap_aux, shiftE_shiftE_aux,
+    faceBits_low_aux s p _ (by decide : (0:Nat) < 3), faceBits_low_aux s p _ (by decide : (1:Nat) < 3),
+    faceBits_low_aux s p _ (by decide : (2:Nat) < 3), faceBits_high_aux s p _ (by decide : (0:Nat) < 3),
+    faceBits_high_aux s p _ (by decide : (1:Nat) < 3), faceBits_high_aux s p _ (by decide : (2:Nat) < 3)] at hm
+  simp only [G, cellEdges]
+  linarith
+
+
+/-- the sign pattern is all-outside on the boundary layer of the closed box of lattice points
+    `[o, o + (nx, ny, nz)]` -/
+def BoundaryOutside (o : Pt) (nx ny nz : Nat) : Prop :=
+  ∀ q : Pt, o.1 ≤ q.1 → q.1 ≤ o.1 + nx → o.2.1 ≤ q.2.1 → q.2.1 ≤ o.2.1 + ny → o.2.2 ≤ q.2.2 → q.2.2 ≤ o.2.2 + nz →
+    (q.1 = o.1 ∨ q.1 = o.1 + nx ∨ q.2.1 = o.2.1 ∨ q.2.1 = o.2.1 + ny ∨ q.2.2 = o.2.2 ∨ q.2.2 = o.2.2 + nz) →
+    s q = false
+
+/-- origin of cell `(i, j, k)` of the box -/
+def cellAt (o : Pt) (i j k : Nat) : Pt := padd o (Int.ofNat i, Int.ofNat j, Int.ofNat k)
+
+theorem fl_flatMap_range_aux {V : Type} [DecidableEq V] (a b : V) (n : Nat) (f : Nat → List (V × V)) :
+    fl a b ((List.range n).flatMap f) = ∑ i ∈ Finset.range n, fl a b (f i) := by
+  induction n with
+  | zero => simp [fl]
+  | succ n ih =>
+    rw [List.range_succ, List.flatMap_append, fl_append_aux, ih, Finset.sum_range_succ]
+    simp
+
+theorem boxEdges_eq_aux (o : Pt) (nx ny nz : Nat) :
+    boxEdges s o nx ny nz =
+      (List.range nx).flatMap fun i => (List.range ny).flatMap fun j => (List.range nz).flatMap fun k =>
+        cellEdges s (cellAt o i j k) := by
+  simp only [boxEdges, boxCells, List.flatMap_assoc, List.flatMap_map, cellAt]
+
+theorem fl_box_aux (o : Pt) (nx ny nz : Nat) :
+    fl u v (boxEdges s o nx ny nz) =
+      ∑ i ∈ Finset.range nx, ∑ j ∈ Finset.range ny, ∑ k ∈ Finset.range nz, fl u v (cellEdges s (cellAt o i j k)) := by
+  rw [boxEdges_eq_aux, fl_flatMap_range_aux]
+  refine Finset.sum_congr rfl fun i _ => ?_
+  rw [fl_flatMap_range_aux]
+  refine Finset.sum_congr rfl fun j _ => ?_
+  rw [fl_flatMap_range_aux]
+
+theorem cellAt_succ0_aux (o : Pt) (i j k : Nat) : padd (cellAt o i j k) (unit 0) = cellAt o (i+1) j k := by
+  simp [cellAt, padd, unit]; omega
+theorem cellAt_succ1_aux (o : Pt) (i j k : Nat) : padd (cellAt o i j k) (unit 1) = cellAt o i (j+1) k := by
+  simp [cellAt, padd, unit]; omega
+theorem cellAt_succ2_aux (o : Pt) (i j k : Nat) : padd (cellAt o i j k) (unit 2) = cellAt o i j (k+1) := by
+  simp [cellAt, padd, unit]; omega
+
+theorem G_zero_of_bits_aux (a : Nat) (ha : a < 3) (q : Pt)
+    (h : latticeFaceBits s q a = [false, false, false, false]) : G s u v a q = 0 := by
+  have hc := table_canon_empty
+  unfold G; rw [h]
+  interval_cases a
+  · rw [hc.1]; simp [fl]
+  · rw [hc.2.1]; simp [fl]
+  · rw [hc.2.2]; simp [fl]
+
+
+variable {s}
+
+theorem G0_boundary_aux {o : Pt} {nx ny nz : Nat} (hbd : BoundaryOutside s o nx ny nz) (i j k : Nat)
+    (hi : i = 0 ∨ i = nx) (hj : j < ny) (hk : k < nz) : G s u v 0 (cellAt o i j k) = 0 := by
+  apply G_zero_of_bits_aux s u v 0 (by decide)
+  simp only [latticeFaceBits, planePts, List.map, embed, cellAt, padd]
+  have e : ∀ q, _ := hbd
+  simp only [List.cons.injEq, and_true]
+  refine ⟨?_, ?_, ?_, ?_⟩ <;> (apply hbd <;> simp <;> omega)
+
+theorem G1_boundary_aux {o : Pt} {nx ny nz : Nat} (hbd : BoundaryOutside s o nx ny nz) (i j k : Nat)
+    (hi : i < nx) (hj : j = 0 ∨ j = ny) (hk : k < nz) : G s u v 1 (cellAt o i j k) = 0 := by
+  apply G_zero_of_bits_aux s u v 1 (by decide)
+  simp only [latticeFaceBits, planePts, List.map, embed, cellAt, padd]
+  simp only [List.cons.injEq, and_true]
+  refine ⟨?_, ?_, ?_, ?_⟩ <;> (apply hbd <;> simp <;> omega)
+
+theorem G2_boundary_aux {o : Pt} {nx ny nz : Nat} (hbd : BoundaryOutside s o nx ny nz) (i j k : Nat)
+    (hi : i < nx) (hj : j < ny) (hk : k = 0 ∨ k = nz) : G s u v 2 (cellAt o i j k) = 0 := by
+  apply G_zero_of_bits_aux s u v 2 (by decide)
+  simp only [latticeFaceBits, planePts, List.map, embed, cellAt, padd]
+  simp only [List.cons.injEq, and_true]
+  refine ⟨?_, ?_, ?_, ?_⟩ <;> (apply hbd <;> simp <;> omega)
+
+/-- net flow through any pair of lattice edges over the whole box is zero -/
+theorem fl_box_zero_aux {o : Pt} {nx ny nz : Nat} (hbd : BoundaryOutside s o nx ny nz) :
+    fl u v (boxEdges s o nx ny nz) = 0 := by
+  rw [fl_box_aux]
+  simp only [cell_flow_aux, cellAt_succ0_aux, cellAt_succ1_aux, cellAt_succ2_aux, Finset.sum_add_distrib]
+  have h0 : ∑ i ∈ Finset.range nx, ∑ j ∈ Finset.range ny, ∑ k ∈ Finset.range nz,
+      (G s u v 0 (cellAt o (i+1) j k) - G s u v 0 (cellAt o i j k)) = 0 := by
+    rw [Finset.sum_comm]
+    refine Finset.sum_eq_zero fun j hj => ?_
+    rw [Finset.sum_comm]
+    refine Finset.sum_eq_zero fun k hk => ?_
+    rw [Finset.sum_range_sub (fun i => G s u v 0 (cellAt o i j k))]
+    rw [G0_boundary_aux u v hbd nx j k (Or.inr rfl) (Finset.mem_range.mp hj) (Finset.mem_range.mp hk),
+        G0_boundary_aux u v hbd 0 j k (Or.inl rfl) (Finset.mem_range.mp hj) (Finset.mem_range.mp hk)]
+    simp
+  have h1 : ∑ i ∈ Finset.range nx, ∑ j ∈ Finset.range ny, ∑ k ∈ Finset.range nz,
+      (G s u v 1 (cellAt o i (j+1) k) - G s u v 1 (cellAt o i j k)) = 0 := by
+    refine Finset.sum_eq_zero fun i hi => ?_
+    rw [Finset.sum_comm]
+    refine Finset.sum_eq_zero fun k hk => ?_
+    rw [Finset.sum_range_sub (fun j => G s u v 1 (cellAt o i j k))]
+    rw [G1_boundary_aux u v hbd i ny k (Finset.mem_range.mp hi) (Or.inr rfl) (Finset.mem_range.mp hk),
+        G1_boundary_aux u v hbd i 0 k (Finset.mem_range.mp hi) (Or.inl rfl) (Finset.mem_range.mp hk)]
+    simp
+  have h2 : ∑ i ∈ Finset.range nx, ∑ j ∈ Finset.range ny, ∑ k ∈ Finset.range nz,
+      (G s u v 2 (cellAt o i j (k+1)) - G s u v 2 (cellAt o i j k)) = 0 := by
+    refine Finset.sum_eq_zero fun i hi => ?_
+    refine Finset.sum_eq_zero fun j hj => ?_
+    rw [Finset.sum_range_sub (fun k => G s u v 2 (cellAt o i j k))]
+    rw [G2_boundary_aux u v hbd i j nz (Finset.mem_range.mp hi) (Finset.mem_range.mp hj) (Or.inr rfl),
+        G2_boundary_aux u v hbd i j 0 (Finset.mem_range.mp hi) (Finset.mem_range.mp hj) (Or.inl rfl)]
+    simp
+  rw [h0, h1, h2]; simp
+
+end glue
+
+/-- **Gluing theorem.**  For every box of cells (any origin — also negative —, any size) and every sign
+    pattern that is all-outside on the boundary layer of the box, the directed triangle edges produced by
+    the table, in lattice-edge ids, are balanced: every directed edge `u → v` occurs exactly as often as its
+    reverse `v → u`.  Unbounded in box size and in the sign pattern; uses the table only through
+    `table_cell_flow` and `table_canon_empty`. -/
+theorem march_closed_balanced (s : Pt → Bool) (o : Pt) (nx ny nz : Nat) (hbd : BoundaryOutside s o nx ny nz) :
+    Balanced (boxEdges s o nx ny nz) :=
+  balanced_of_fl_aux fun u v => fl_box_zero_aux u v hbd
+
+/-- non-vacuity: one inside sample at (-1,-1,-1) in the 2×2×2 box at (-2,-2,-2) — the hypothesis holds and the
+    surface is the octahedron (8 triangles, 24 directed edges) -/
+example : BoundaryOutside (fun q => decide (q = ((-1 : Int), (-1 : Int), (-1 : Int)))) (-2, -2, -2) 2 2 2 ∧
+    (boxEdges (fun q => decide (q = ((-1 : Int), (-1 : Int), (-1 : Int)))) (-2, -2, -2) 2 2 2).length = 24 := by
+  refine ⟨?_, by decide⟩
+  intro q h1 h2 h3 h4 h5 h6 hb
+  simp only [decide_eq_false_iff_not]
+  rintro rfl
+  simp at hb
+
 end C09
 end PolyVerif
